@@ -817,7 +817,8 @@ Proof.
 Qed.
 
 (* the whole-document statement *)
-Theorem binn_roundtrip : forall v bs, wf v = true -> binn_encode v = Some bs -> binn_decode bs = Some v.
+Lemma root_repr : forall v bs, wf v = true -> binn_encode v = Some bs ->
+  exists b, root_bval bs = Some b /\ repr v b /\ enc_item v = Some bs.
 Proof.
   intros v bs Hw He.
   assert (Hc : (exists l, v = JArr l) \/ (exists ms, v = JObj ms)) by (destruct v; try discriminate; eauto).
@@ -826,21 +827,24 @@ Proof.
   assert (Hl : zlen bs < 2147483648) by lia.
   destruct (gv_total v bs [] Hw He' Hl) as (b & Hb).
   assert (R : repr v b) by (exists bs, []; repeat split; assumption).
-  destruct (repr_container v b R Hc) as (ty' & count' & body' & rest' & Hbt & _).
-  unfold binn_decode.
-  assert (Hroot : root_bval bs = Some b).
-  { subst bs. assert (Hty : ty = jbinn_BINN_LIST \/ ty = jbinn_BINN_OBJECT) by (destruct Hk as [[-> _]|[-> _]]; tauto).
-    assert (Hcnt : 0 <= count < 2147483648).
-    { destruct Hk as [(_ & l & bxs & _ & Hx & -> & ->)|(_ & l & bxs & _ & Hx & -> & ->)].
-      - destruct (arr_encs_len _ _ Hx) as [L1 L2]. pose proof (count_bound l bxs L1 L2). pose proof (zlen_nonneg l).
-        rewrite zlen_cons, !zlen_app in Hl. pose proof (zlen_nonneg (wr_field size)). pose proof (zlen_nonneg (wr_field (zlen l))). lia.
-      - destruct (obj_encs_len _ _ Hx) as [L1 L2]. pose proof (count_bound l bxs L1 L2). pose proof (zlen_nonneg l).
-        rewrite zlen_cons, !zlen_app in Hl. pose proof (zlen_nonneg (wr_field size)). pose proof (zlen_nonneg (wr_field (zlen l))). lia. }
-    rewrite gv_container in Hb by (try assumption; lia). rewrite app_nil_r in Hb. apply Some_inj in Hb. subst b.
-    unfold root_bval. rewrite <- Hs. change jbinn_MIN_BINN_SIZE with 3. replace (size <? 3) with false by lia.
-    pose proof (read_hdr_saved ty size count body Hty ltac:(lia) Hcnt) as Hh. rewrite Hh.
-    replace (size >? size) with false by lia. reflexivity. }
-  rewrite Hroot. apply (repr_dec v b R). pose proof (depth_le_len v bs He'). lia.
+  exists b. split; [|split; assumption].
+  subst bs. assert (Hty : ty = jbinn_BINN_LIST \/ ty = jbinn_BINN_OBJECT) by (destruct Hk as [[-> _]|[-> _]]; tauto).
+  assert (Hcnt : 0 <= count < 2147483648).
+  { destruct Hk as [(_ & l & bxs & _ & Hx & -> & ->)|(_ & l & bxs & _ & Hx & -> & ->)].
+    - destruct (arr_encs_len _ _ Hx) as [L1 L2]. pose proof (count_bound l bxs L1 L2). pose proof (zlen_nonneg l).
+      rewrite zlen_cons, !zlen_app in Hl. pose proof (zlen_nonneg (wr_field size)). pose proof (zlen_nonneg (wr_field (zlen l))). lia.
+    - destruct (obj_encs_len _ _ Hx) as [L1 L2]. pose proof (count_bound l bxs L1 L2). pose proof (zlen_nonneg l).
+      rewrite zlen_cons, !zlen_app in Hl. pose proof (zlen_nonneg (wr_field size)). pose proof (zlen_nonneg (wr_field (zlen l))). lia. }
+  rewrite gv_container in Hb by (try assumption; lia). rewrite app_nil_r in Hb. apply Some_inj in Hb. subst b.
+  unfold root_bval. rewrite <- Hs. change jbinn_MIN_BINN_SIZE with 3. replace (size <? 3) with false by lia.
+  pose proof (read_hdr_saved ty size count body Hty ltac:(lia) Hcnt) as Hh. rewrite Hh.
+  replace (size >? size) with false by lia. reflexivity.
+Qed.
+
+Theorem binn_roundtrip : forall v bs, wf v = true -> binn_encode v = Some bs -> binn_decode bs = Some v.
+Proof.
+  intros v bs Hw He. destruct (root_repr v bs Hw He) as (b & Hroot & R & He').
+  unfold binn_decode. rewrite Hroot. apply (repr_dec v b R). pose proof (depth_le_len v bs He'). lia.
 Qed.
 
 (* ------------------------------------------------------------------ clones of the binary form *)
